@@ -93,6 +93,7 @@ pub fn exec(w: &[&str], obs: &mut Obs) -> Option<String> {
 }
 
 /// a sink that accepts `cap` bytes and then fails every non-empty write
+#[derive(Debug)]
 pub struct FailingWriter { pub cap: usize, pub got: Vec<u8> }
 impl std::io::Write for FailingWriter {
     fn write(&mut self, buf: &[u8]) -> std::io::Result<usize> {
